@@ -876,16 +876,17 @@ func VerifC27Chain() {
 		for i := 0; i < ne; i++ {
 			q := verifName(p+".e", i)
 			// row ids are concrete and pairwise distinct (the rows must be in place before the first
-			// BEGIN of the native run); the first change of a transaction is on foo, the second on bar
+			// BEGIN of the native run), the one integer column holds concrete, pairwise distinct
+			// values; the first change of a transaction is on foo, the second on bar
 			ev := &verifC27Ev{op: verifChoice(q+".op", 3), table: i}
 			id := int64(10 + 4*g)
 			if ev.op != voInsert {
 				ev.oldID = id
-				ev.old = verifC27Cells(q+".old", 1, []int{vvInt})
+				ev.old = []verifC27Cell{{kind: vkInt, i: int64(1000 + g)}}
 			}
 			if ev.op != voDelete {
 				ev.newID = id + int64(g%2) // every other update moves the row to a new id
-				ev.new = verifC27Cells(q+".new", 1, []int{vvInt})
+				ev.new = []verifC27Cell{{kind: vkInt, i: int64(2000 + g)}}
 			}
 			txs[t].evs = append(txs[t].evs, ev)
 			g++
